@@ -13,6 +13,8 @@ def main():
     ap.add_argument("--tier", default=os.environ.get("VERIF_TIER", "quick"), choices=["quick", "thorough"])
     ap.add_argument("--replay", default=None)
     a = ap.parse_args()
+    if a.replay:
+        os.environ["VERIF_REPLAY"] = "1"        # a replay does not overwrite the evidence of the last full run
     try:
         if a.prop in ("C09", "C10", "C11", "C12"):
             from . import atomsops
